@@ -21,6 +21,8 @@ import (
 	"encoding/hex"
 	"fmt"
 	"math"
+	"sort"
+	"strings"
 	"time"
 
 	"github.com/gnolang/gno/tm2/pkg/amino"
@@ -262,6 +264,38 @@ func retime(sc *scenario, b *types.Block) {
 	b.Time = sm.MedianTime(c, sc.st.LastValidators)
 }
 
+// fieldMedianTime is MedianTime as it was before repo commit cbe9f9a39b (validator
+// looked up by the vote's ValidatorIndex FIELD); ok=false where that code panicked.
+// Used only to build the regression witnesses: a block whose time is this value.
+func fieldMedianTime(c *types.Commit, vals *types.ValidatorSet) (res time.Time, ok bool) {
+	type wt struct {
+		t time.Time
+		w int64
+	}
+	var ws []wt
+	total := int64(0)
+	for _, pc := range c.Precommits {
+		if pc == nil {
+			continue
+		}
+		if pc.ValidatorIndex < 0 || pc.ValidatorIndex >= len(vals.Validators) {
+			return time.Time{}, false
+		}
+		w := vals.Validators[pc.ValidatorIndex].VotingPower
+		total += w
+		ws = append(ws, wt{pc.Timestamp, w})
+	}
+	sort.SliceStable(ws, func(i, j int) bool { return ws[i].t.UnixNano() < ws[j].t.UnixNano() })
+	median := total / 2
+	for _, x := range ws {
+		if median <= x.w {
+			return x.t, true
+		}
+		median -= x.w
+	}
+	return time.Time{}, true
+}
+
 func firstPC(b *types.Block, r *kit.Rand) (int, *types.CommitSig) {
 	if b.LastCommit == nil {
 		return -1, nil
@@ -306,7 +340,22 @@ func pcMuts(name string, f func(sc *scenario, pc *types.CommitSig, i int, n int,
 			}
 		}}
 	}
-	return []mutation{mk("", false, false, false), mk("+sign", true, false, false), mk("+sign+time", true, true, false), mk("+stale", false, false, true)}
+	out := []mutation{mk("", false, false, false), mk("+sign", true, false, false), mk("+sign+time", true, true, false), mk("+stale", false, false, true)}
+	if strings.HasPrefix(name, "vidx-") {
+		// the block time the pre-fix MedianTime would have demanded
+		out = append(out, mutation{"pc-" + name + "+fieldtime", func(sc *scenario, b *types.Block, r *kit.Rand) {
+			i, pc := firstPC(b, r)
+			if pc == nil {
+				return
+			}
+			f(sc, pc, i, len(b.LastCommit.Precommits), r)
+			recommit(b, false)
+			if t, ok := fieldMedianTime(b.LastCommit, sc.st.LastValidators); ok {
+				b.Time = t
+			}
+		}})
+	}
+	return out
 }
 
 func allMutations() []mutation {
@@ -969,10 +1018,47 @@ func damage(r *kit.Rand, bz []byte) []byte {
 
 // ---------------------------------------------------------------- gen
 
+// witnesses: the regression witnesses of the defect fixed by repo commit cbe9f9a39b
+// (`gen --tier witness`; committed as corpus/C32/*.ops).
+func witnesses(e *emitter, ms []mutation) {
+	byName := map[string]mutation{}
+	for _, m := range ms {
+		byName[m.name] = m
+	}
+	var sk *scenario
+	for _, sc := range tableScenarios() {
+		if sc.name == "h10-skewed" {
+			sk = sc
+		}
+	}
+	// slot 2 (power 30 of 5,·,30,9; timestamps +7s,·,+2s,+9s): the true median is +7s
+	pick := func(name string, slot int, f func(pc *types.CommitSig), fieldTime bool) {
+		e.w.Case("witness-" + name)
+		b := sk.block()
+		f(b.LastCommit.Precommits[slot])
+		recommit(b, false)
+		if fieldTime {
+			if t, ok := fieldMedianTime(b.LastCommit, sk.st.LastValidators); ok {
+				b.Time = t
+			}
+		}
+		e.emit(sk, b)
+	}
+	pick("median-panic-vidx-99", 2, func(pc *types.CommitSig) { pc.ValidatorIndex = 99 }, false)
+	pick("median-panic-vidx-neg", 0, func(pc *types.CommitSig) { pc.ValidatorIndex = -1 }, false)
+	pick("median-panic-vidx-n", 3, func(pc *types.CommitSig) { pc.ValidatorIndex = 4 }, false)
+	pick("median-weight-field-time", 2, func(pc *types.CommitSig) { pc.ValidatorIndex = 1 }, true)
+	pick("median-weight-true-time", 2, func(pc *types.CommitSig) { pc.ValidatorIndex = 1 }, false)
+}
+
 func gen(w *kit.Out, r *kit.Rand, tier string) {
 	thorough := tier == "thorough"
 	e := &emitter{w: w}
 	ms := allMutations()
+	if tier == "witness" {
+		witnesses(e, ms)
+		return
+	}
 	var pool2 [][2]any // (spec, bytes) of emitted blocks, to feed the malformed stream
 	keep := func(sc *scenario, bz []byte) {
 		if bz != nil && len(pool2) < 400 {
